@@ -424,7 +424,7 @@ def parse_ty(s):
 
 # ------------------------------------------------------------------ reporting
 def write_replay(prop, n, payload):
-    d = os.path.join(ROOT, "replays")
+    d = os.environ.get("VERIF_REPLAY_DIR") or os.path.join(ROOT, "replays")
     os.makedirs(d, exist_ok=True)
     h = hashlib.sha1(json.dumps(payload, sort_keys=True).encode()).hexdigest()[:10]
     p = os.path.join(d, f"{prop}-{h}.json")
